@@ -29,7 +29,7 @@ fn str_class(c: &str, salt: usize) -> String {
 		"" => String::new(),
 		"a" => ["a", "Fox", "2020-08-01T19:42:48Z", " "][salt % 4].to_string(),
 		"e2" => ["\u{e9}", "na\u{ef}ve \u{df}"][salt % 2].to_string(),
-		"k3" => ["\u{30d7}", "\u{30d7}layer \u{20ac}", "\u{1F600} four-byte"][salt % 3].to_string(),
+		"k3" => ["\u{30d7}", "\u{30d7}layer \u{20ac}", "\u{1F600} four-byte", "\u{feff}starts with U+FEFF", "\u{fffd}\u{feff}"][salt % 5].to_string(),
 		"L255" => {
 			// exactly 255 bytes of UTF-8
 			let mut s = "x".repeat(252);
@@ -42,10 +42,16 @@ fn str_class(c: &str, salt: usize) -> String {
 
 fn key_name(k: &str, salt: usize) -> String {
 	// model keys are short names; a few of them are concretised as unusual keys
-	match (k, salt % 5) {
+	// (among them the keys Slippi's own metadata uses: a reader has no business interpreting them)
+	match (k, salt % 7) {
 		("b", 1) => String::new(), // the empty key
 		("a", 2) => "\u{30ad}\u{30fc}".to_string(),
 		("z", 3) => "k".repeat(255),
+		("a", 4) => "lastFrame".to_string(),
+		("z", 4) => "characters".to_string(),
+		("b", 5) => "players".to_string(),
+		("a", 6) => "\u{feff}a".to_string(), // a key that starts with U+FEFF
+		("z", 6) => "playedOn".to_string(),
 		_ => k.to_string(),
 	}
 }
@@ -133,6 +139,9 @@ fn random_tree(r: &mut Rng, depth: usize) -> Vec<(String, Node)> {
 	for j in 0..n {
 		let klen = r.below(12) as usize;
 		let mut k: String = (0..klen).map(|_| *r.pick(&['a', 'Z', '0', '_', '\u{e9}', '\u{30d7}', ' ', '"', '\\'])).collect();
+		if r.chance(1, 4) {
+			k = r.pick(&["lastFrame", "startAt", "playedOn", "players", "characters", "names", "netplay", "code", "consoleNick", "\u{feff}"]).to_string();
+		}
 		while k.len() > 255 || out.iter().any(|(x, _)| *x == k) {
 			k = format!("k{}_{}", j, r.below(1000));
 		}
@@ -402,7 +411,17 @@ fn check_arch(db: &LayoutDb, x: &Arch, idx: usize, seed: u64, sink: &Sink) {
 		if arch.len() % 512 != 0 || !arch[arch.len() - 1024..].iter().all(|b| *b == 0) {
 			report("tar_structure", "mismatch", "archive is not terminated by two zero blocks".into());
 		}
-		// determinism
+		// determinism (also after a write of another game into a sink that fails part-way)
+		if idx % 2 == 1 {
+			let mut o2 = GenOpts::new(seed ^ 0xD37 ^ ((idx as u64) << 12), ver);
+			o2.plan = 1;
+			let other = gen::build_beh(db, &beh, &o2);
+			if let (Outcome::Ok(gx), Outcome::Ok(gy)) = (real::read_slp(&other.bytes, false, with_hash), real::read_slp(&other.bytes, false, with_hash)) {
+				if let Outcome::Ok(full) = real::write_slpp(gy, comp) {
+					real::fail_write_slpp(gx, comp, full.len() - 1 - (idx * 131) % full.len().min(4096));
+				}
+			}
+		}
 		if let Outcome::Ok(g1) = real::read_slp(&built.bytes, false, with_hash) {
 			if let Outcome::Ok(again) = real::write_slpp(g1, comp) {
 				if again != arch {
@@ -460,7 +479,14 @@ fn check_arch(db: &LayoutDb, x: &Arch, idx: usize, seed: u64, sink: &Sink) {
 		if name == "x" {
 			let mut d = vec![0u8; *r.pick(&[0usize, 1, 511, 512, 513, 3000])];
 			r.fill(&mut d);
-			crafted.push(([format!("extra_{}.bin", n), "notes.txt".to_string(), "frames.arrow.bak".to_string()][n % 3].clone(), d));
+			let mut name = [format!("extra_{}.bin", n), "notes.txt".to_string(), "frames.arrow.bak".to_string()][n % 3].clone();
+			if intact && idx % 4 == 1 {
+				// a member whose path does not fit the 100-byte name field (GNU long-name record or PAX path record);
+				// the first 100 bytes of it end in the name of a known entry
+				let known = ["start.raw", "metadata.json", "peppi.json", "frames.arrow", "end.raw", "gecko_codes.raw"][(n + idx / 4) % 6];
+				name = format!("{}/{}.orig-copy{}", "x".repeat(99 - known.len()), known, if (idx / 8) % 2 == 0 { "" } else { "2" });
+			}
+			crafted.push((name, d));
 		} else {
 			let e = it.next().expect("model archive has more known entries than the writer produced");
 			assert_eq!(&e.name, name);
